@@ -11,6 +11,7 @@
 //	      | F <shapetype> <nf> (<name:x..> <type> <size> <prec>)*
 //	rspec = S <nf> (<name> <tag> <kind>)*                  kind additionally gI (a geom.Geom field)
 //	      | F <nn> <name:x..>*
+//	      | M <k> (S … | F …)*                             reading schedule on ONE decoder: record i is read with call i mod k
 //	rec   = <geom tokens> <nv> <val>*                      val = i<dec> | f<16 hex> | s<hex>
 //
 // Result: W <per record ok|err|panic:..>* R <nread> (<geom tokens> <nv> <val|->*)* E <0|1>
@@ -85,6 +86,7 @@ type spec struct {
 	shpTyp int
 	ff     []ffield
 	names  []string
+	calls  []spec // path 'M': per-row reading schedule
 }
 type fcase struct {
 	w, r spec
@@ -112,6 +114,13 @@ func (v val) tok() string {
 }
 
 func (s spec) toks(b *strings.Builder, reader bool) {
+	if s.path == 'M' {
+		fmt.Fprintf(b, " M %d", len(s.calls))
+		for _, c := range s.calls {
+			c.toks(b, true)
+		}
+		return
+	}
 	if s.path == 'S' {
 		fmt.Fprintf(b, " S %d", len(s.sf))
 		for _, f := range s.sf {
@@ -177,6 +186,12 @@ func parseSpec(p *vproto.Parser, reader bool) spec {
 		n := p.Int()
 		for i := 0; i < n; i++ {
 			s.sf = append(s.sf, sfield{unhx(p.Next()), unhx(p.Next()), p.Next()})
+		}
+	case "M":
+		s.path = 'M'
+		n := p.Int()
+		for i := 0; i < n; i++ {
+			s.calls = append(s.calls, parseSpec(p, true))
 		}
 	case "F":
 		s.path = 'F'
@@ -366,10 +381,21 @@ func runCase(c fcase) string {
 	defer dec.Close()
 	var rows []string
 	limit := len(c.recs) + 3
-	if c.r.path == 'S' {
-		rt := structType(c.r.sf)
-		for len(rows) < limit {
-			p := reflect.New(rt)
+	calls := c.r.calls
+	if c.r.path != 'M' {
+		calls = []spec{c.r}
+	}
+	types := make([]reflect.Type, len(calls))
+	for i, cl := range calls {
+		if cl.path == 'S' {
+			types[i] = structType(cl.sf)
+		}
+	}
+	// one Decoder for the whole file; record i is read with call i mod len(calls)
+	for i := 0; len(rows) < limit && len(calls) > 0; i++ {
+		cl := calls[i%len(calls)]
+		if cl.path == 'S' {
+			p := reflect.New(types[i%len(calls)])
 			var more bool
 			if pan := vproto.Safe(func() { more = dec.DecodeRow(p.Interface()) }); pan != "" {
 				rows = append(rows, "PANIC")
@@ -381,7 +407,7 @@ func runCase(c fcase) string {
 			var rb strings.Builder
 			nv := 0
 			var vs strings.Builder
-			for i, f := range c.r.sf {
+			for i, f := range cl.sf {
 				fv := p.Elem().Field(i)
 				if isGeomKind(f.kind) {
 					if f.kind == "gI" && fv.IsNil() {
@@ -403,13 +429,11 @@ func runCase(c fcase) string {
 			}
 			fmt.Fprintf(&rb, " %d%s", nv, vs.String())
 			rows = append(rows, rb.String())
-		}
-	} else {
-		for len(rows) < limit {
+		} else {
 			var g geom.Geom
 			var fields map[string]string
 			var more bool
-			if pan := vproto.Safe(func() { g, fields, more = dec.DecodeRowFields(c.r.names...) }); pan != "" {
+			if pan := vproto.Safe(func() { g, fields, more = dec.DecodeRowFields(cl.names...) }); pan != "" {
 				rows = append(rows, "PANIC")
 				break
 			}
@@ -418,8 +442,8 @@ func runCase(c fcase) string {
 			}
 			var rb strings.Builder
 			rb.WriteString(vproto.GeomToks(g))
-			fmt.Fprintf(&rb, " %d", len(c.r.names))
-			for _, n := range c.r.names {
+			fmt.Fprintf(&rb, " %d", len(cl.names))
+			for _, n := range cl.names {
 				if v, ok := fields[n]; ok {
 					rb.WriteString(" " + hx("s", v))
 				} else {
@@ -427,9 +451,9 @@ func runCase(c fcase) string {
 				}
 			}
 			rows = append(rows, rb.String())
-			if dec.Error() != nil {
-				break
-			}
+		}
+		if dec.Error() != nil {
+			break
 		}
 	}
 	fmt.Fprintf(&b, " R %d", len(rows))
